@@ -28,16 +28,25 @@ func c17OpenReal(name string, fk, wal bool) (*DB, error) {
 	if err != nil {
 		return nil, err
 	}
-	d, err := OpenWithDriver(DefaultDriver(), filepath.Join(dir, name), fk, wal)
+	// the database file is prepared through a connection of our own (not through the handles under test)
+	path := filepath.Join(dir, name)
+	DefaultDriver()
+	h, err := sql.Open(defaultDriverName, "file:"+path)
+	if err != nil {
+		return nil, err
+	}
+	for _, q := range []string{"CREATE TABLE foo (id INTEGER PRIMARY KEY, name TEXT)", "INSERT INTO foo(id,name) VALUES(1,'base')"} {
+		if _, err := h.Exec(q); err != nil {
+			h.Close()
+			return nil, err
+		}
+	}
+	h.Close()
+	d, err := OpenWithDriver(DefaultDriver(), path, fk, wal)
 	if err != nil {
 		return nil, err
 	}
 	c17Dirs[d] = dir
-	for _, q := range []string{"CREATE TABLE foo (id INTEGER PRIMARY KEY, name TEXT)", "INSERT INTO foo(id,name) VALUES(1,'base')"} {
-		if _, err := d.rwDB.Exec(q); err != nil {
-			return nil, err
-		}
-	}
 	return d, nil
 }
 
